@@ -943,6 +943,25 @@ def replay(path):
     if not fi:
         print('replay file names broken obligations only (no failing input):', v.get('what'))
         return 1
+    if 'history' not in fi and str(fi.get('call', '')).startswith('K '):
+        # a single kernel call: `K id debug fn args...`
+        t = fi['call'].split()
+        case = KCase('replay', t[3], [int(x) for x in t[4:]], meta=(dict(want=v.get('expected')) if v.get('kind') == 'oracle' and v.get('expected') else {}))
+        case.debug = int(t[2])
+        prof = v.get('profile', 'debug')
+        C.build_harness(prof)
+        C.build_model()
+        wd = os.path.join(C.BUILD, 'run', 'replay')
+        hres, _ = C.run_harness([case], wd, prof)
+        mres = C.run_model([case], wd)
+        hl, ml = hres.get('replay', []), mres.get('replay', [])
+        print(case.text().strip())
+        print('   impl :', hl[0] if hl else '-')
+        print('   model:', ml[0] if ml else '-')
+        findings = compare_K(case, hl, ml)
+        for f in findings:
+            print('FINDING', f)
+        return 1 if findings else 0
     if 'history' not in fi:
         print(json.dumps(fi, indent=1))
         return 1
